@@ -1,2 +1,153 @@
-/-! Line-protocol driver of the Config model (stub). -/
-def main : IO Unit := pure ()
+import SoxrModel.Config.Model
+/-!
+Line-protocol driver of the Config model (`soxr_config < ops`): one op per line in, one canonical line out.
+`harness/config/probe.c` executes the same ops on the real library and prints the same lines.
+
+  qspec <recipe> <flags>        -> Q e= prec= phase= pb= sb= flags=          (binary64 fields as bit patterns)
+  rtspec <threads>              -> RT min= large= kb= threads= flags=
+  iospec <itype> <otype>        -> IO e= itype= otype=
+  atoi x<hex>                   -> A <int>
+  create k=v ...                -> C err <message> | C ok engine= ready= prec= phase= pb= sb= qflags= min= large= kb= threads= rtflags= ratio=
+  setratio <bits> | setch <n> | seterr <k|-> | process <inNull> <outNull> <olen> <fn> | output <outNull> <olen> <fn>
+  | delay | clear | error | engine                                           (on the resampler of the last create)
+-/
+namespace Soxr.Config.Driver
+open Soxr.Config Soxr.Config.Dbl
+
+def kvs (toks : List String) : List (String × String) :=
+  toks.filterMap fun t => match t.splitOn "=" with
+    | [k, v] => some (k, v)
+    | _ => none
+
+def getNat (m : List (String × String)) (k : String) (d : Nat) : Nat := ((m.lookup k).bind (·.toNat?)).getD d
+
+def hexVal (c : Char) : Nat :=
+  if c.isDigit then c.toNat - 48 else if 'a' ≤ c ∧ c ≤ 'f' then c.toNat - 87 else 0
+
+def unhex : List Char → List Char
+  | a :: b :: r => Char.ofNat (hexVal a * 16 + hexVal b) :: unhex r
+  | _ => []
+
+/-- `x<hex bytes>` -> the string; absent -> none -/
+def envVal (m : List (String × String)) (k : String) : Option String :=
+  (m.lookup k).map fun v => String.ofList (unhex (v.toList.drop 1))
+
+def b2s (b : Bool) : String := if b then "1" else "0"
+
+def allKinds : List ErrorKind :=
+  [.invalidQuality, .invalidDatatype, .ratioOutOfRange, .imaging, .transitionBandwidth, .transitionBand, .precision,
+   .factorNotPositive, .factorTooLarge, .phase, .mustSetChannels, .invalidChannels, .channelsFixed, .varyingRatio,
+   .nullOutput, .inputFailure, .injected]
+
+def errStr : Option ErrorKind → String
+  | none => "-"
+  | some e => e.msg
+
+def parseConfig (m : List (String × String)) : Config :=
+  let q0 := qualitySpec (getNat m "recipe" 4) (getNat m "rflags" 0)
+  let q : QSpec :=
+    { precision := match m.lookup "prec" with | some v => ofBits (v.toNat?.getD 0) | none => q0.precision,
+      phase := match m.lookup "phase" with | some v => ofBits (v.toNat?.getD 0) | none => q0.phase,
+      pb := match m.lookup "pb" with | some v => ofBits (v.toNat?.getD 0) | none => q0.pb,
+      sb := match m.lookup "sb" with | some v => ofBits (v.toNat?.getD 0) | none => q0.sb,
+      e := match m.lookup "qe" with | some v => v == "1" | none => q0.e,
+      flags := match m.lookup "qflags" with | some v => v.toNat?.getD 0 | none => q0.flags }
+  let it := getNat m "itype" 0
+  let ot := getNat m "otype" 0
+  let io : IoSpec :=
+    if getNat m "viaio" 0 == 1 then
+      (if 8 ≤ it ||| ot then { itype := 0, otype := 0, flags := getNat m "ioflags" 0, e := true }
+       else { itype := it, otype := ot, flags := getNat m "ioflags" 0, e := false })
+    else { itype := it, otype := ot, flags := getNat m "ioflags" 0, e := getNat m "ioe" 0 == 1 }
+  let rd := runtimeDefault (getNat m "threads" 1)
+  let rt : RtSpec :=
+    { minDft := getNat m "min" rd.minDft, largeDft := getNat m "large" rd.largeDft, coefKb := getNat m "kb" rd.coefKb,
+      threads := rd.threads, flags := getNat m "rtflags" rd.flags }
+  let env : Env :=
+    { simd := envVal m "E.SOXR_USE_SIMD", simd32 := envVal m "E.SOXR_USE_SIMD32", simd64 := envVal m "E.SOXR_USE_SIMD64",
+      minDft := envVal m "E.SOXR_MIN_DFT_SIZE", largeDft := envVal m "E.SOXR_LARGE_DFT_SIZE",
+      coefs := envVal m "E.SOXR_COEFS_SIZE", threads := envVal m "E.SOXR_NUM_THREADS",
+      interp := envVal m "E.SOXR_COEF_INTERP", strictBuf := envVal m "E.SOXR_STRICT_BUF",
+      noSmallInt := envVal m "E.SOXR_NOSMALLINTOPT" }
+  { irate := ofBits (getNat m "ir" 0), orate := ofBits (getNat m "or" 0), channels := getNat m "ch" 1,
+    q := if getNat m "q" 1 == 1 then some q else none,
+    io := if getNat m "io" 1 == 1 then some io else none,
+    rt := if getNat m "rt" 1 == 1 then some rt else none,
+    env := env, cpu := { simd32 := getNat m "cpu32" 1 == 1, simd64 := getNat m "cpu64" 1 == 1 } }
+
+def acceptedLine (a : Accepted) : String :=
+  s!"C ok engine={a.engine.name} ready={b2s a.ready} prec={toBits a.q.precision} phase={toBits a.q.phase} " ++
+  s!"pb={toBits a.q.pb} sb={toBits a.q.sb} qflags={a.q.flags} min={a.rt.minDft} large={a.rt.largeDft} " ++
+  s!"kb={a.rt.coefKb} threads={a.rt.threads} rtflags={a.rt.flags} ratio={toBits a.ioRatio}"
+
+def frStr : Frames → String
+  | .zero => "1"
+  | .any => "*"
+
+def retLine : Ret → String
+  | .status e => "S " ++ errStr e
+  | .frames n e => s!"P z={frStr n} err=" ++ errStr e
+  | .count n => s!"K z={frStr n}"
+  | .name s => "N " ++ s
+  | .nullCall => "X nullcall"
+  | .misuse => "X misuse"
+
+def parseFn (s : String) : FnObs := if s == "failed" then .failed else .quiet
+
+def parseOp (toks : List String) : Option Op :=
+  match toks with
+  | ["setratio", b] => some (.setIoRatio (ofBits (b.toNat?.getD 0)))
+  | ["setch", n] => some (.setChannels (n.toNat?.getD 0))
+  | ["seterr", k] => some (.setError (if k == "-" then none else allKinds[k.toNat?.getD 0]?))
+  | ["process", i, o, n, f] => some (.process (i == "1") (o == "1") (n.toNat?.getD 0) (parseFn f))
+  | ["output", o, n, f] => some (.output (o == "1") (n.toNat?.getD 0) (parseFn f))
+  | ["delay"] => some .delay
+  | ["clear"] => some .clear
+  | ["error"] => some .error
+  | ["engine"] => some .engine
+  | _ => none
+
+def step (st : Option Api) (line : String) : Option Api × Option String :=
+  let toks := (line.trimAscii.toString.splitOn " ").filter (· ≠ "")
+  match toks with
+  | [] => (st, none)
+  | ["qspec", r, f] =>
+    let q := qualitySpec (r.toNat?.getD 0) (f.toNat?.getD 0)
+    (st, some s!"Q e={b2s q.e} prec={toBits q.precision} phase={toBits q.phase} pb={toBits q.pb} sb={toBits q.sb} flags={q.flags}")
+  | ["rtspec", n] =>
+    let r := runtimeDefault (n.toNat?.getD 0)
+    (st, some s!"RT min={r.minDft} large={r.largeDft} kb={r.coefKb} threads={r.threads} flags={r.flags}")
+  | ["iospec", i, o] =>
+    let it := i.toNat?.getD 0
+    let ot := o.toNat?.getD 0
+    let bad := match Gen.ioSpecTable.find? (fun x => x.1 == it && x.2.1 == ot) with
+      | some (_, _, b) => b
+      | none => decide (8 ≤ it ||| ot)
+    (st, some (if bad then "IO e=1 itype=0 otype=0" else s!"IO e=0 itype={it} otype={ot}"))
+  | ["atoi", v] => (st, some s!"A {atoi (String.ofList (unhex (v.toList.drop 1)))}")
+  | "create" :: rest =>
+    let c := parseConfig (kvs rest)
+    match validate c with
+    | .error e => (none, some ("C err " ++ e.msg))
+    | .ok a => (some (Api.ofAccepted c a), some (acceptedLine a))
+  | _ =>
+    match parseOp toks with
+    | none => (st, some "bad-op")
+    | some op =>
+      match st with
+      | none => (st, some "X no-resampler")
+      | some s => let (s', r) := Soxr.Config.step s op; (some s', some (retLine r))
+
+partial def loop (h : IO.FS.Stream) (out : IO.FS.Stream) (st : Option Api) : IO Unit := do
+  let line ← h.getLine
+  if line.isEmpty then return ()
+  let (st', o) := step st line
+  match o with
+  | some s => out.putStrLn s
+  | none => pure ()
+  loop h out st'
+
+end Soxr.Config.Driver
+
+def main : IO Unit := do
+  Soxr.Config.Driver.loop (← IO.getStdin) (← IO.getStdout) none
